@@ -130,4 +130,22 @@ theorem code_IsPlayable (m : Bytes) : ∃ p, isPlayable m = some p ∧ midi.Mess
   · exact ⟨false, by simp [h], by simp only [h, ↓reduceIte]; rfl⟩
   · exact ⟨decide (t < 70), by simp [h], by simp only [h, ↓reduceIte]; rfl⟩
 
+/-- `Message.IsOneOf(checkers...)`: the loop answers at the first checker that matches -/
+theorem code_IsOneOf (m : Bytes) (cs : List Int) :
+    ∃ b, isOneOf .midi m cs = some b ∧ midi.Message.IsOneOf m cs = .ok b := by
+  unfold midi.Message.IsOneOf
+  induction cs with
+  | nil => exact ⟨false, rfl, rfl⟩
+  | cons c r ih =>
+    obtain ⟨b, hb, hr⟩ := ih
+    obtain ⟨t, h1, h2⟩ := code_Is m c
+    simp only [List.forIn_cons] at hr ⊢
+    have hm : msgIs .midi m c = some (typeIs t c) := by simp [msgIs, typeOf, h1]
+    cases hc : typeIs t c
+    · refine ⟨b, by simp [isOneOf, hm, hc, hb], ?_⟩
+      simp only [h2, hc, bind, Except.bind, pure, Except.pure] at hr ⊢
+      simpa using hr
+    · refine ⟨true, by simp [isOneOf, hm, hc], ?_⟩
+      simp [h2, hc, bind, Except.bind, pure, Except.pure]
+
 end Midi.C08
